@@ -27,7 +27,7 @@ func TestVerif_C29(t *testing.T) {
 	}
 	defer env.srv.Stop()
 	c29RunPinned(t, env)
-	vh.Check(t, "merge", 200, 1000, func(rt *rapid.T) {
+	vh.Check(t, "merge", 300, 1200, func(rt *rapid.T) {
 		c29Case(rt, env, rec)
 	})
 	fmt.Println("PHASES", phaseT)
@@ -51,43 +51,6 @@ func (m mergeMode) String() string {
 		return "autocommit_off"
 	}
 	return "allow_commit_conflicts"
-}
-
-// mHistoryOpts bounds one side's history.
-type mHistoryOpts struct {
-	maxCommits, maxOps int
-	op                 mOpOpts
-}
-
-// mRunHistory draws and executes one side's history on the currently checked-out branch.
-func mRunHistory(rt *rapid.T, c *mCase, side *mSide, label string, tables []string, o mHistoryOpts, schemaChange func(step int) []string) {
-	nc := rapid.IntRange(1, o.maxCommits).Draw(rt, label+".commits")
-	step := 0
-	for ci := 0; ci < nc; ci++ {
-		nops := rapid.IntRange(1, o.maxOps).Draw(rt, fmt.Sprintf("%s.c%d.nops", label, ci))
-		for oi := 0; oi < nops; oi++ {
-			if schemaChange != nil {
-				for _, ddl := range schemaChange(step) {
-					for _, tb := range tables {
-						c.run(rt, mInst(ddl, tb))
-					}
-				}
-			}
-			step++
-			stmt := side.genOp(rt, fmt.Sprintf("%s.c%d.o%d", label, ci, oi), o.op)
-			for _, tb := range tables {
-				c.run(rt, mInst(stmt, tb))
-			}
-		}
-		if ci == nc-1 && schemaChange != nil {
-			for _, ddl := range schemaChange(-1) { // not yet applied: apply at the end
-				for _, tb := range tables {
-					c.run(rt, mInst(ddl, tb))
-				}
-			}
-		}
-		c.run(rt, fmt.Sprintf("CALL dolt_commit('-A','--allow-empty','-m','%s commit %d')", label, ci))
-	}
 }
 
 // mDoMerge creates branch work at from, merges other into it and returns the conflicts flag.
@@ -226,7 +189,8 @@ func c29Case(rt *rapid.T, env *mEnv, rec *vh.Recorder) {
 	}
 	c.run(rt, "CALL dolt_commit('-A','--allow-empty','-m','base')")
 
-	hop := mHistoryOpts{maxCommits: 3, maxOps: 7, op: mOpOpts{keyMax: sp.KeyMax, maxRange: 2, wInsert: 3, wUpdate: 6, wDelete: 2}}
+	hop := mHistoryOpts{maxCommits: 3, minOps: 2, maxOps: 7}
+	opo := mOpOpts{keyMax: sp.KeyMax, maxRange: 2, wInsert: 3, wUpdate: 6, wDelete: 2}
 	tables := []string{"t"}
 
 	phase("base", tph)
@@ -245,16 +209,16 @@ func c29Case(rt *rapid.T, env *mEnv, rec *vh.Recorder) {
 		hookOurs = sc.hook(ours)
 	}
 	c.checkoutNew(rt, "b1", "base")
-	mRunHistory(rt, c, ours, "ours", tables, hop, hookOurs)
+	mRunHistory(rt, c, "ours", []*mTrack{{side: ours, tables: tables, op: opo, hook: hookOurs}}, hop)
 
 	theirs := base.clone()
 	if sc != nil && !oursChanged {
 		hookTheirs = sc.hook(theirs)
 	}
-	hop.op.hot = ours.touchedKeys()
-	hop.op.other = ours
+	opo.hot = ours.touchedKeys()
+	opo.other = ours
 	c.checkoutNew(rt, "b2", "base")
-	mRunHistory(rt, c, theirs, "theirs", tables, hop, hookTheirs)
+	mRunHistory(rt, c, "theirs", []*mTrack{{side: theirs, tables: tables, op: opo, hook: hookTheirs}}, hop)
 
 	phase("hist", tph)
 	tph = time.Now()
@@ -270,6 +234,16 @@ func c29Case(rt *rapid.T, env *mEnv, rec *vh.Recorder) {
 	}
 
 	pkNames := mNames(sp.Cols[:sp.NPK])
+	// an incompatible type change is refused only when the other side changed the table as well
+	// (a table that is identical to the ancestor on one side is taken from the other side as is)
+	refused := false
+	if sc != nil && sc.Refused {
+		other := theirs
+		if !oursChanged {
+			other = ours
+		}
+		refused = !other.T.Equal(base.T)
+	}
 	oneWay := func(what, work, from, other string, oursS, theirsS *mSide, oursCh bool) (*mExpect, []string, []string, bool) {
 		e := mModelMerge(base, oursS, theirsS, sc, oursCh)
 		if (c29ShapeLeftSchemaRightDelete(base, oursS, theirsS, sc, oursCh) && vh.OpenFinding("C29", c29FindLeftSchemaRightDelete)) ||
@@ -278,7 +252,7 @@ func c29Case(rt *rapid.T, env *mEnv, rec *vh.Recorder) {
 			return e, nil, nil, true
 		}
 		flag := mDoMerge(rt, c, mode, work, from, other)
-		if sc != nil && sc.Refused {
+		if refused {
 			// documented schema conflict: reported, listed in dolt_schema_conflicts, data untouched
 			if flag != "1" {
 				rt.Fatalf("%s: INT->BIGINT on one side must be reported as a (schema) conflict, flag %s", what, flag)
@@ -337,7 +311,7 @@ func c29Case(rt *rapid.T, env *mEnv, rec *vh.Recorder) {
 	} else {
 		cl = append(cl, "no_schema_change")
 	}
-	if sc != nil && sc.Refused {
+	if refused {
 		cl = append(cl, "documented_schema_conflict")
 		nontrivial = false
 	} else if skip1 || skip2 {
